@@ -1,18 +1,63 @@
 """Configuration of ./check C08 (see cfg/README)."""
 
 PROP = {'modules': ['SfntV.Props.C08'],
- 'required_theorems': ['C08_cov_roundtrip', 'C08_cov_len', 'C08_cov_indices', 'C08_cov_minimal',
+ 'required_theorems': ['C08_cov_roundtrip', 'C08_cov_len', 'C08_cov_indices', 'C08_cov_minimal', 'C08_cov_order_independent',
                        'C08_classdef_roundtrip', 'C08_classdef_len', 'C08_classdef_refusal',
                        'C08_st_roundtrip_gsub1_1', 'C08_st_len_gsub1_1', 'C08_st_roundtrip_gsub1_2',
-                       'C08_st_len_gsub1_2', 'C08_st_roundtrip_gsub2_1_3_1', 'C08_st_len_gsub2_1_3_1',
-                       'C08_lookuplist_layout'],
+                       'C08_st_len_gsub1_2', 'C08_st_roundtrip_gsub2_1_3_1', 'C08_st_len_gsub2_1_3_1', 'C08_st_roundtrip_gsub4_1',
+                       'C08_lookuplist_layout', 'C08_valuerecord_roundtrip', 'C08_st_roundtrip_gpos1_1',
+                       'C08_st_roundtrip_gpos1_2', 'C08_gpos1_2_normal_form', 'C08_st_roundtrip_gpos2_1',
+                       'C08_featurelist_roundtrip'],
  'areas': [('otl', 900, 12000)],
  'rule': 'distinct case lines; non-trivial = coverage/class tables with at least two glyphs/runs, every '
-         'lookup-list and every mutated-bytes case',
- 'partial': [],
- 'modelled_not_verified': [],
- 'assumptions': []}
+         'subtable, every lookup-list and every mutated-bytes case',
+ 'partial': ['codecs proved: GSUB 1.1, 1.2, 2.1, 3.1, 4.1, GPOS value records, GPOS 1.1, 1.2, 2.1, feature list',
+             'not modelled yet: GSUB 8.1, GPOS 2.2/3.1/4.1/5.1/6.1, (chained) context lookups, '
+             'anchors, mark arrays, script list (needs the BCP47<->OpenType tag tables and x/text '
+             'canonicalisation as oracles) and the GSUB/GPOS header (Info.Encode); the '
+             'theorems scriptlist/gtab_roundtrip of DESIGN section 8 are therefore open',
+             'GDEF (Table.Encode / Read: header, the two class definition tables, mark glyph sets with 32-bit '
+             'offsets) is modelled and tied by byte-exact encode / value-exact decode correspondence '
+             '(streams otl.gdef.*, including the 16-bit offset boundary), its parts are the proved '
+             'cov_*/classdef_* theorems, but the assembled gdef_roundtrip theorem is not written',
+             'readLookupList (the Go reader of lookup lists, with its 6000-entry budget and its two-pass '
+             'extension resolution) is modelled and tied by value-exact correspondence on encoder output, '
+             'hand-built extension lookups and mutated bytes (stream otl.ll.read), but no theorem is stated '
+             'about it: the lookup-list theorem recovers the structure with the specification reader '
+             'LL.specRead, and the direct stream otl.ll.prop evaluates that reader on the bytes of the '
+             'real encoder',
+             'GPOS 1.2: a nil record next to non-nil ones reads back as a zero record (explicit normal '
+             'form, C08_gpos1_2_normal_form); 65536 records (possible only if all are nil) are outside '
+             'the theorem: valueCount is then written as 0 (not repaired, no practical input)',
+             'lookup lists: a lookup whose subtables before the last one exceed 64 KiB, and an '
+             'extension-needing list made only of contextual subtables, are now refused (panic) rather '
+             'than written through extension records: loud, but representable data is not written'],
+ 'modelled_not_verified': ['Go map iteration, maps.Keys + sort in Table.Glyphs/Set.ToTable/CovAndAdjust: '
+                           'the models take the sorted lists these produce',
+                           'sort.SliceStable in tryReorder = List.mergeSort (stable) in the model, tied by '
+                           'byte-exact correspondence on lists with equal-sized lookups',
+                           'uint32 arithmetic of chunk sizes/positions (total size < 4 GiB is a hypothesis)',
+                           'parser.Parser window/seek logic (property C17): readers are modelled on the bytes '
+                           'from the table position on; every short read is the same error class'],
+ 'assumptions': ['glyph ids, classes, value-record fields, lookup type/flags/mark filtering set are 16-bit '
+                 'values (Go types)',
+                 'coverage tables are valid (indices 0..n-1 strictly monotonic), one substitute/sequence/'
+                 'record per covered glyph; lookup type of a lookup is not the extension type of its table',
+                 'lookup list smaller than 4 GiB; subtables are opaque byte strings whose encodeLen equals '
+                 'their encoded length (proved per subtable type where a st_len theorem exists)']}
 
-LEVEL = {'text': 'in progress',
- 'note': '',
- 'technique': 'Lean 4 proof about encoder/decoder models + byte-exact differential correspondence'}
+LEVEL = {'text': 'Proof (partial over subtable types): Lean models of coverage.Table/Set Encode/EncodeLen/Read, '
+         'classdef.Table Append/AppendLen/Read, LookupList.encode with tryReorder and extension records '
+         '(subtables as opaque blobs), GSUB 1.1/1.2/2.1/3.1 and GPOS value records, 1.1, 1.2 codecs; theorems: '
+         'decode(encode x) = x, declared size = emitted size, coverage indices 0..n-1 in glyph order, the '
+         'smaller format is chosen, and for every lookup list either the specification reader recovers '
+         'every (type, flags, mark filtering set, subtable bytes) through the written 16-bit offsets and '
+         '32-bit extension offsets, or the encoder panics - never a wrapped offset. Tied to the code by '
+         'byte-exact encoder and value-exact decoder correspondence (generated, boundary and mutated '
+         'inputs) and by evaluating independent specification readers on the bytes of the real encoders. '
+         'Eleven silent 16-bit truncations found on the way were repaired as loud refusals.',
+ 'note': 'Trusted: Lean kernel + 3 standard axioms; hand-written models mirror the (repaired) Go code as checked '
+         'by sampled correspondence; the specification readers are my reading of OpenType chapter 2 / GSUB / '
+         'GPOS. Remaining subtable types, script/feature lists, table header and GDEF assembly are not modelled.',
+ 'technique': 'Lean 4 proofs about encoder/decoder models against executable specification readers + byte-exact '
+              'differential correspondence'}
